@@ -12,6 +12,7 @@ CFG = {
         "Leptos.RView.C04_settles_for",
         "Leptos.RView.C04_for_rows_are_keys",
         "Leptos.RView.C04_for_keeps_rows",
+        "Leptos.RView.C04_enumerate_index",
         "Leptos.RView.C04_untouched_nodes",
         "Leptos.RView.C04_show_no_rerender_same_branch",
         "Leptos.RView.C04_disposed_stays_empty",
@@ -81,7 +82,8 @@ CFG = {
             "component bodies that create a Memo / RwSignal of their own before returning their view (`sc`), at the top of the mounted view, inside Show / Either "
             "branches and inside the rows of a <For> whose rows are `<li>{k}{row view}</li>` built inside `children` (`forr`): row-local memos over outer signals "
             "and the key, row-local signals written later through handles the harness keeps (`setl`, every live instance), nested Show / Either inside rows over "
-            "the row-local state, bodies inside those branches again; list writes that keep, drop, add and move rows in between; a tenth of the other cases with <Suspense> (over an "
+            "the row-local state, bodies inside those branches again; half of these lists are <ForEnumerate> (`fore`) whose rows render their `index` signal (text, attribute, "
+            "inside row-local memos), with key lists that make surviving rows leave and return to their creation index; list writes that keep, drop, add and move rows in between; a tenth of the other cases with <Suspense> (over an "
             "AsyncDerived of signals, executor run to idle between writes) or <ErrorBoundary> at the top of the view (implementation-side oracle only, "
             "the model prints `skip`); histories of 3-15 writes with `poll i` (1-3 polls of the i-th ready task) or `idle` or nothing in between, a sixth "
             "with a disposal in the middle; plus EXHAUSTIVE schedules: 12 small programs x every poll sequence of length <= 3 over ready indices 0..2 "
@@ -100,6 +102,8 @@ CFG = {
         "reactive attribute / class (&str, F) / style (&str, F): build, rebuild (RenderEffect::new_with_value over the taken state)",
         "RenderEffect::new_with_value_erased (first run synchronous, then spawn; task loop; value Arc kept alive by the task until it ends)",
         "Either::{build, rebuild}, leptos Show (ArcMemo over the boolean + Either), leptos For (keyed(..) = Leptos.Keyed.rebuild), String / () / HtmlElement / tuple build and rebuild",
+        "leptos ForEnumerate: per-row `ArcRwSignal::new(index)` read through an arena `ReadSignal` under the row's owner, `set_index` called by keyed() for the surviving rows "
+        "that changed position (Model: View.forRows en=true, rowStep / setIx over Leptos.Keyed's log.builds / log.setIndex; theorem C04_enumerate_index)",
         "mount_to_renderer / UnmountHandle drop",
         "component-local state and its owners: `Memo::new` / `RwSignal::new` in a component body register the value with the CURRENT owner (the render effect whose run "
         "constructs the view; the row's owner `parent.with(Owner::new)` of leptos For, held by OwnedView; the mount owner); `Owner::with_cleanup` on every effect re-run and "
